@@ -772,7 +772,7 @@ func execConc(mode string, sessions []string) string {
 	// every session is run by `reps` goroutines at once (replicas must all give
 	// the same answer; more goroutines = more interleavings at no cost for the
 	// reference, which computes each session once)
-	const reps = 3
+	const reps = 5
 	res := make([][reps]string, len(sessions))
 	var wg sync.WaitGroup
 	start := make(chan struct{})
